@@ -7,7 +7,10 @@ import (
 	ad "github.com/pbenner/autodiff"
 	st "github.com/pbenner/autodiff/statistics"
 	"github.com/pbenner/autodiff/statistics/generic"
+	md "github.com/pbenner/autodiff/statistics/matrixDistribution"
 	me "github.com/pbenner/autodiff/statistics/matrixEstimator"
+	sd "github.com/pbenner/autodiff/statistics/scalarDistribution"
+	vd "github.com/pbenner/autodiff/statistics/vectorDistribution"
 	se "github.com/pbenner/autodiff/statistics/scalarEstimator"
 	ve "github.com/pbenner/autodiff/statistics/vectorEstimator"
 	tp "github.com/pbenner/threadpool"
@@ -78,9 +81,9 @@ func estimateMatrix(est st.MatrixEstimator, x []ad.ConstMatrix, gamma ad.ConstVe
 func RunMatrixEstimators(c *core.Ctx, checkEM bool) {
 	t := c.Tape
 	cfg := drawPool(t)
-	kind := t.Choose(5)
+	kind := t.Choose(6)
 	if checkEM {
-		kind = []int{1, 2, 4}[t.Choose(3)]
+		kind = []int{1, 2, 4, 5}[t.Choose(4)]
 	}
 	rows := t.Range(1, 3)
 	cols := t.Range(1, 3)
@@ -160,6 +163,41 @@ func RunMatrixEstimators(c *core.Ctx, checkEM bool) {
 				}
 			}}
 			return withOptions(me.NewMixtureEstimator([]float64{1, 2}, []st.MatrixEstimator{mkId(-1, rows), mkId(1, rows)}, math.Inf(-1), steps, hook))
+		}
+	case 5:
+		// user-assembled model: a matrix mixture over fixed components (vector-iid
+		// distributions wrapped in NilEstimator); EM fits the weights only, the
+		// densities are evaluated on per-thread clones of the components
+		emis = 0
+		cols = t.Range(1, 2)
+		rows = cols * t.Range(1, 2)
+		what = fmt.Sprintf("matrix:mixture-of-fixed-vector-iid(%dx%d,steps=%d)", rows, cols, steps)
+		mk = func(tr *[]float64) (st.MatrixEstimator, error) {
+			hook := generic.EmHook{Value: func(m generic.BasicMixture, i int, likelihood, epsilon float64) {
+				if i > 0 {
+					*tr = append(*tr, likelihood)
+				}
+			}}
+			fixed := func(shift float64) st.MatrixEstimator {
+				ds := make([]st.ScalarPdf, cols)
+				for j := range ds {
+					d, err := sd.NewNormalDistribution(ad.NewReal64(shift+float64(j)/2), ad.NewReal64(1.5))
+					if err != nil {
+						panic(err)
+					}
+					ds[j] = d
+				}
+				row, err := vd.NewScalarId(ds...)
+				if err != nil {
+					panic(err)
+				}
+				iid, err := md.NewVectorIid(row, rows)
+				if err != nil {
+					panic(err)
+				}
+				return me.NilEstimator{MatrixPdf: iid}
+			}
+			return withOptions(me.NewMixtureEstimator([]float64{1, 2}, []st.MatrixEstimator{fixed(-1), fixed(1)}, math.Inf(-1), steps, hook))
 		}
 	case 4:
 		// nested EM: a matrix HMM whose emissions are vector mixtures (each
@@ -267,14 +305,14 @@ func RunMatrixEstimators(c *core.Ctx, checkEM bool) {
 		c.Logf("constructor: %v", err)
 		return
 	}
-	seq := estimateMatrix(e1, recs, gamma, tp.ThreadPool{}, kind != 1)
+	seq := estimateMatrix(e1, recs, gamma, tp.ThreadPool{}, kind != 1 && kind != 5)
 	seq.trace = tr1
 	if sequentialPanics(c, seq) {
 		return
 	}
 	e2, _ := mk(&tr2)
 	var par outcome
-	res, abort, pv, site := simRun(c, cfg, func(p tp.ThreadPool) { par = estimateMatrix(e2, recs, gamma, p, kind != 1) })
+	res, abort, pv, site := simRun(c, cfg, func(p tp.ThreadPool) { par = estimateMatrix(e2, recs, gamma, p, kind != 1 && kind != 5) })
 	par.trace = tr2
 	key := famKind(what)
 	if abort != nil {
@@ -521,4 +559,113 @@ func RunLogisticRegression(c *core.Ctx) {
 	inputsUnchanged(c, key, before, snapVecs(recs))
 	c.Nontriv = true
 	c.Sample = map[string]interface{}{"workload": "logistic regression (SAGA)", "estimator": what, "records": n, "pool": cfg.String(), "jobs_per_executor": res.JobsPerExecutor}
+}
+
+/* W10: clones of one estimator prototype -------------------------------------------------
+ *
+ * ScalarId clones the estimators it is given; handing it the same prototype
+ * several times gives several estimators that must not share anything.  Each
+ * coordinate has its own data, so an estimator that shares state with its
+ * sibling runs its E-step on one column and its M-step on the other.  The
+ * hook (copied with the prototype) is told apart by the mixture it reports.
+ */
+
+func RunClonedPrototypes(c *core.Ctx) {
+	t := c.Tape
+	cfg := drawPool(t)
+	dim := t.Range(2, 3)
+	kind := t.Choose(2) // mixture of normals / mixture of poissons
+	steps := t.Range(2, 6)
+	nrec := t.Range(3, 14)
+	traces := map[generic.BasicMixture][]float64{}
+	var order []generic.BasicMixture
+	hook := generic.EmHook{Value: func(m generic.BasicMixture, i int, likelihood, epsilon float64) {
+		if _, ok := traces[m]; !ok {
+			order = append(order, m)
+		}
+		if i > 0 {
+			traces[m] = append(traces[m], likelihood)
+		}
+	}}
+	mkProto := func() (st.ScalarEstimator, error) {
+		var es []st.ScalarEstimator
+		for i := 0; i < 2; i++ {
+			if kind == 0 {
+				e, _ := se.NewNormalEstimator(float64(3*i)-1.5, 1, 0.2)
+				es = append(es, e)
+			} else {
+				e, _ := se.NewPoissonEstimator(1 + 3*float64(i))
+				es = append(es, e)
+			}
+		}
+		return se.NewMixtureEstimator([]float64{1, 1}, es, math.Inf(-1), steps, hook)
+	}
+	recs := make([]ad.ConstVector, nrec)
+	for r := range recs {
+		v := make([]float64, dim)
+		for i := range v {
+			if kind == 0 {
+				// coordinate i lives around 4*i: sharing between coordinates shows
+				v[i] = 4*float64(i) + float64(t.Range(-8, 8))/4
+			} else {
+				v[i] = float64(t.Choose(4) + 3*i)
+			}
+		}
+		recs[r] = ad.NewDenseFloat64Vector(v)
+	}
+	what := fmt.Sprintf("vector:scalar-id-of-clones(%s mixture x%d, steps=%d)", []string{"normal", "poisson"}[kind], dim, steps)
+	key := "vector:scalar-id-of-clones"
+	c.Logf("%s on %d records, pool %s", what, nrec, cfg)
+	for i, r := range recs {
+		c.Logf("  record %d: %v", i, vecOf(r))
+	}
+	before := snapVecs(recs)
+	run := func(p tp.ThreadPool) (outcome, [][]float64) {
+		traces = map[generic.BasicMixture][]float64{}
+		order = nil
+		proto, err := mkProto()
+		if err != nil {
+			return outcome{err: err.Error()}, nil
+		}
+		protos := make([]st.ScalarEstimator, dim)
+		for i := range protos {
+			protos[i] = proto // the same prototype for every coordinate
+		}
+		est, err := ve.NewScalarId(protos...)
+		if err != nil {
+			return outcome{err: err.Error()}, nil
+		}
+		o := estimateVector(est, recs, nil, p)
+		o.extra = nil
+		var tr [][]float64
+		for _, m := range order {
+			tr = append(tr, traces[m])
+		}
+		return o, tr
+	}
+	seq, _ := run(tp.ThreadPool{})
+	if sequentialPanics(c, seq) {
+		return
+	}
+	var par outcome
+	var ptr [][]float64
+	res, abort, pv, site := simRun(c, cfg, func(p tp.ThreadPool) { par, ptr = run(p) })
+	if abort != nil {
+		abortFail(c, key, cfg, abort, res)
+	}
+	if pv != nil {
+		par.err = fmt.Sprintf("panic in %s: %v", site, pv)
+	}
+	logSchedule(c, res)
+	c.Logf("sequential: %v %s", seq.params, seq.err)
+	c.Logf("parallel:   %v %s traces %v", par.params, par.err, ptr)
+	compare(c, key, cfg, seq, par, 1e-8)
+	inputsUnchanged(c, key, before, snapVecs(recs))
+	if par.err == "" {
+		for _, tr := range ptr {
+			checkMonotone(c, key, tr)
+		}
+	}
+	c.Nontriv = true
+	c.Sample = map[string]interface{}{"workload": "clones of one prototype", "estimator": what, "records": nrec, "pool": cfg.String(), "jobs_per_executor": res.JobsPerExecutor}
 }
